@@ -44,6 +44,14 @@ def sig(c):
                 paid = True
             elif k == "Send" and e.get("type") == COOP_TYPE and (paid or pending):
                 if paid and not_durable and in_pay and inp == "restart":
+                    # the recorded finding: recovery RE-RUNS the pay state's action (its checks fail now) - the action's
+                    # own store write precedes the one of the failure event. A restart that gives up without running
+                    # the action (e.g. the state marked fail-on-recover) is a different defect.
+                    effs = st.get("effects") or []
+                    cut = next((i for i, x in enumerate(effs) if x.get("e") == "Persist" and "SendPrivkey" in (x.get("state") or "")), len(effs))
+                    reran = sum(1 for x in effs[:cut] if x.get("e") == "Persist") >= 2 or any(x.get("e") == "Validate" for x in effs[:cut])
+                    if not reran:
+                        return "c06:paid-then-restart-in-pay-state-gives-up-without-running-the-action->coop_close:%s:%s" % (role, before)
                     return "c06:D4:paid-then-restart-in-pay-state->coop_close"
                 if paid and not_durable and in_pay and inp == "tx_confirmed(err=true)":
                     return "c06:D4:paid-then-watcher-error-in-pay-state->coop_close"
